@@ -704,6 +704,9 @@ var engCorpus = func() []engCase {
 		{Pattern: `(?:ab*){2}`, Text: R("abab")},
 		{Pattern: `\uFFFFa`, Text: R("x\uFFFFa")},
 		{Pattern: `\uFFFFab`, Text: R("xx\uFFFFab")},
+		{Pattern: `[xy]*([a ]{1,2}\s+)c(d)`, Text: R("a cd")},
+		{Pattern: `[xy]*([a\t]{1,2}\s+)c(d)`, Text: R("xa\tcd")},
+		{Pattern: `[xy]*(?:[a ]{1,2}\s+|q)c(d)`, Text: R("a cd")},
 		{Pattern: `a{64}c`, Opts: rtl, Text: R("zz" + strings.Repeat("a", 64) + "cyy"), Start: 69},
 		{Pattern: `(?<=(?:a*ba){2})c`, Text: R("baabac")},
 		{Pattern: `(?<=(?:a*ca){2})`, Text: R("aacaca")},
